@@ -1807,6 +1807,8 @@ def eager_getitem_lambda(op, lhs, rhs):
 def eager_getslice_lambda(op, x):
     index = normalize_ellipsis(op.defaults["index"], len(x.shape))
     head, tail = index[0], index[1:]
+    if head is None:
+        return None  # TODO support inserting a new leading dimension
     expr = x.expr
     if head != slice(None):
         expr = expr(**{x.var.name: head})
